@@ -7,6 +7,8 @@ import Mathlib.Tactic
 
 set_option linter.unusedSimpArgs false
 set_option linter.unusedVariables false
+set_option linter.unusedSectionVars false
+set_option linter.unnecessarySeqFocus false
 
 namespace Pygom.Params
 
@@ -379,5 +381,186 @@ theorem buildNums_eq (params : List String) (hnd : params.Nodup) (vals : List V)
     rw [List.map_fst_zip]; omega
   rw [foldl_dset_str_fresh _ [] (by rw [hfst]; exact hnd) (by simp)]
   simp
+
+/-! ### representation invariant -/
+
+section setter
+variable [Zero V]
+
+/-- a name written as a sympy Symbol is not accepted inside a pair list (only as a dict key) -/
+def pairOk : NameRef → Prop
+  | .sym _ => False
+  | _ => True
+
+instance (r : NameRef) : Decidable (pairOk r) := by
+  cases r <;> unfold pairOk <;> exact inferInstance
+
+/-- the representation invariant: distinct declared names, the string/symbol key invariant, every
+key a declared name, and `_paramValue` in sync with `_parameters` -/
+structure Good (s : State V) : Prop where
+  nodup : s.params.Nodup
+  inv : Inv s.items
+  names : ∀ kv ∈ s.items, kv.1.name ∈ s.params
+  pv : s.pv = unrollPure s.params s.items (List.replicate s.params.length 0)
+
+theorem good_init (params : List String) (h : params.Nodup) : Good (init (V := V) params) :=
+  ⟨h, trivial, by simp [init, State.items], by simp [init, State.items, unrollPure]⟩
+
+/-! ### building blocks of the setter: name resolution, dict construction, commit -/
+
+theorem extractParamSymbol_ok {params : List String} {r : NameRef} {n : String}
+    (h : extractParamSymbol params r = .ok n) : n = r.name ∧ pairOk r ∧ known params n := by
+  cases r with
+  | str m =>
+    by_cases hk : known params m
+    · simp [extractParamSymbol, hk] at h; subst h; exact ⟨rfl, trivial, hk⟩
+    · simp [extractParamSymbol, hk] at h
+  | odevar m =>
+    by_cases hk : known params m
+    · simp [extractParamSymbol, hk] at h; subst h; exact ⟨rfl, trivial, hk⟩
+    · simp [extractParamSymbol, hk] at h
+  | sym m => simp [extractParamSymbol] at h
+
+theorem extractParamSymbol_of_mem {params : List String} {r : NameRef} (hp : pairOk r)
+    (hm : r.name ∈ params) : extractParamSymbol params r = .ok r.name := by
+  cases r with
+  | str m => simp [extractParamSymbol, known, NameRef.name] at *; simp [hm]
+  | odevar m => simp [extractParamSymbol, known, NameRef.name] at *; simp [hm]
+  | sym m => exact absurd hp (by simp [pairOk])
+
+theorem dictKeySymbol_ok {params : List String} {r : NameRef} {n : String}
+    (h : dictKeySymbol params r = .ok n) : n = r.name := by
+  cases r with
+  | str m => exact (extractParamSymbol_ok (by simpa [dictKeySymbol] using h)).1
+  | odevar m => exact (extractParamSymbol_ok (by simpa [dictKeySymbol] using h)).1
+  | sym m =>
+    have := (extractParamSymbol_ok (r := .str m) (by simpa [dictKeySymbol] using h)).1
+    simpa [NameRef.name] using this
+
+theorem dictKeySymbol_of_mem {params : List String} {r : NameRef} (hm : r.name ∈ params) :
+    dictKeySymbol params r = .ok r.name := by
+  cases r with
+  | str m => simp [dictKeySymbol, extractParamSymbol, known, NameRef.name] at *; simp [hm]
+  | odevar m => simp [dictKeySymbol, extractParamSymbol, known, NameRef.name] at *; simp [hm]
+  | sym m => simp [dictKeySymbol, extractParamSymbol, known, NameRef.name] at *; simp [hm]
+
+/-- the symbol-key writes a list of `(name, value)` performs -/
+abbrev writes (d : Dict V) (ps : List (String × V)) : Dict V :=
+  ps.foldl (fun d p => dset d (Key.sym p.1) p.2) d
+
+theorem buildPairs_of_valid (params : List String) (ps : List (NameRef × V)) (d : Dict V)
+    (h : ∀ p ∈ ps, pairOk p.1 ∧ p.1.name ∈ params) :
+    buildPairs params ps d = .ok (writes d (ps.map (fun p => (p.1.name, p.2)))) := by
+  induction ps generalizing d with
+  | nil => rfl
+  | cons p ps ih =>
+    obtain ⟨r, v⟩ := p
+    have hp := h (r, v) (by simp)
+    simp only [buildPairs, extractParamSymbol_of_mem hp.1 hp.2]
+    rw [ih _ (fun q hq => h q (by simp [hq]))]
+    rfl
+
+theorem buildPairs_ok_inv (params : List String) (ps : List (NameRef × V)) (d0 d : Dict V)
+    (h : buildPairs params ps d0 = .ok d) :
+    d = writes d0 (ps.map (fun p => (p.1.name, p.2))) ∧ ∀ p ∈ ps, pairOk p.1 := by
+  induction ps generalizing d0 with
+  | nil => simp only [buildPairs] at h; cases h; exact ⟨rfl, by simp⟩
+  | cons p ps ih =>
+    obtain ⟨r, v⟩ := p
+    simp only [buildPairs] at h
+    split at h
+    · rename_i n hn
+      obtain ⟨h1, h2, _⟩ := extractParamSymbol_ok hn
+      obtain ⟨e1, e2⟩ := ih _ h
+      subst h1
+      refine ⟨e1, ?_⟩
+      intro q hq
+      rcases List.mem_cons.mp hq with hq | hq
+      · subst hq; exact h2
+      · exact e2 q hq
+    · cases h
+
+theorem buildDict_of_valid (params : List String) (es : List (NameRef × Option V)) (d : Dict V)
+    (h : ∀ e ∈ es, e.1.name ∈ params ∧ e.2.isSome) :
+    buildDict params es d
+      = (writes d (es.filterMap (fun e => e.2.map (fun v => (e.1.name, v)))), none) := by
+  induction es generalizing d with
+  | nil => rfl
+  | cons e es ih =>
+    obtain ⟨r, ov⟩ := e
+    have he := h (r, ov) (by simp)
+    cases ov with
+    | none => simp at he
+    | some v =>
+      simp only [buildDict, dictKeySymbol_of_mem he.1]
+      rw [ih _ (fun q hq => h q (by simp [hq]))]
+      simp [writes]
+
+theorem buildDict_none_inv (params : List String) (es : List (NameRef × Option V)) (d0 d : Dict V)
+    (h : buildDict params es d0 = (d, none)) :
+    d = writes d0 (es.filterMap (fun e => e.2.map (fun v => (e.1.name, v)))) ∧ ∀ e ∈ es, e.2.isSome := by
+  induction es generalizing d0 with
+  | nil => simp only [buildDict] at h; cases h; exact ⟨rfl, by simp⟩
+  | cons e es ih =>
+    obtain ⟨r, ov⟩ := e
+    cases ov with
+    | none => simp [buildDict] at h
+    | some v =>
+      simp only [buildDict] at h
+      split at h
+      · rename_i n hn
+        have h1 := dictKeySymbol_ok hn
+        obtain ⟨e1, e2⟩ := ih _ h
+        subst h1
+        refine ⟨by simpa [writes] using e1, ?_⟩
+        intro q hq
+        rcases List.mem_cons.mp hq with hq | hq
+        · subst hq; rfl
+        · exact e2 q hq
+      · simp at h
+
+theorem commit_ok (s : State V) (d : Dict V) (h : ∀ kv ∈ d, kv.1.name ∈ s.params) :
+    commit s d = ({ s with dict := some d,
+                           pv := unrollPure s.params d (List.replicate s.params.length 0) }, none) := by
+  unfold commit
+  rw [unrollFrom_ok _ _ _ h]
+
+theorem commit_err (s : State V) (d : Dict V) (kv : Key × V) (hm : kv ∈ d) (hn : kv.1.name ∉ s.params) :
+    (commit s d).2 ≠ none := by
+  unfold commit
+  exact unrollFrom_err_of_mem _ _ _ kv hm hn
+
+theorem good_commit (s : State V) (d : Dict V) (hnd : s.params.Nodup) (hI : Inv d)
+    (hn : ∀ kv ∈ d, kv.1.name ∈ s.params) :
+    Good ({ s with dict := some d, pv := unrollPure s.params d (List.replicate s.params.length 0) } : State V) :=
+  ⟨hnd, by simpa [State.items] using hI, by simpa [State.items] using hn, by simp [State.items]⟩
+
+theorem abs_commit (s : State V) (d : Dict V) (pv : List V) :
+    abs ({ s with dict := some d, pv := pv } : State V) = fun n => lv n 0 d := by
+  funext n; simp [abs, lastVal, State.items]
+
+/-- a valid positional assignment -/
+theorem nums_valid (s : State V) (hg : Good s) (vals : List V) (hlen : vals.length = s.params.length)
+    (hne : s.params ≠ []) :
+    ∃ s', commit s (buildNums s.params vals) = (s', none) ∧ Good s' ∧ s'.params = s.params
+      ∧ abs s' = Spec.update (fun _ => 0) (s.params.zip vals) := by
+  rw [buildNums_eq _ hg.nodup _ hlen]
+  have hn : ∀ kv ∈ (s.params.zip vals).map (fun p => (Key.str p.1, p.2)), kv.1.name ∈ s.params := by
+    intro kv hkv
+    obtain ⟨p, hp, rfl⟩ := List.mem_map.mp hkv
+    exact (List.of_mem_zip hp).1
+  refine ⟨_, commit_ok s _ hn, good_commit s _ hg.nodup ?_ hn, rfl, ?_⟩
+  · apply Inv_of_all_str
+    intro kv hkv
+    obtain ⟨p, hp, rfl⟩ := List.mem_map.mp hkv
+    exact ⟨p.1, rfl⟩
+  · rw [abs_commit]
+    funext n
+    have := lv_eq_update ((s.params.zip vals).map (fun p => (Key.str p.1, p.2))) n (fun _ => (0 : V))
+    rw [this]
+    congr 1
+    simp [List.map_map, Function.comp_def, Key.name]
+
+end setter
 
 end Pygom.Params
